@@ -401,6 +401,13 @@ def check_content(nc, ref, S, where=""):
         top = ref.notes[-1]
         variants.append(ref.notes[:-1] + [(top[0], top[1] + 1)])
     variants.append(ref.notes + [("F", 8)])
+    # one note -- at every position in turn -- a semitone off, the others as they are
+    for i, (nm, o) in enumerate(ref.notes):
+        for alt in ((nm + "#", o), (nm + "b", o)):
+            q = R.pitch(alt)
+            if q not in ps:
+                variants.append(ref.notes[:i] + [alt] + ref.notes[i + 1:])
+                break
     for v in variants:
         other = container_of(v)
         if (nc == other) or not (nc != other) or (other == nc):
@@ -653,6 +660,24 @@ def compare_voiced(S, site, nc, names, root):
     return ok, ref
 
 
+def reused_containers(names):
+    """Containers a constructor may be called on: a new one, one holding unrelated notes, and ones whose notes carry the
+    very names the constructor is about to place -- in other octaves, and with one name doubled on top."""
+    out = [("", NoteContainer()), (" on a non-empty container", NoteContainer([["A", 2], ["F#", 6]]))]
+    good = [n for n in names if P.is_name(n)]
+    if good:
+        low = []
+        for i, n in enumerate(good):
+            cand = (n, 1 + i)
+            if not low or R.pitch(cand) > R.pitch(low[-1]):
+                low.append(cand)
+        if len(low) == len(good):
+            out.append((" on a container holding the same names in other octaves", container_of(low)))
+            top = (good[0], low[-1][1] + 2)
+            out.append((" on a container holding the same names and one of them doubled", container_of(low + [top])))
+    return out
+
+
 def run_chord(case):
     """case = [root, suffix]"""
     S = engine.S
@@ -668,11 +693,10 @@ def run_chord(case):
         S.count("chord_not_buildable_skipped")
         return
     for via in ("from_chord_shorthand", "from_chord"):
-        for prefill in (False, True):
-            nc = NoteContainer([["A", 2], ["F#", 6]]) if prefill else NoteContainer()
+        for where, nc in reused_containers(names):
             r = getattr(nc, via)(sh)
             S.trans(1)
-            site = "%s(%r)%s" % (via, sh, " on a non-empty container" if prefill else "")
+            site = "%s(%r)%s" % (via, sh, where)
             if r is not nc:
                 # the docstring example shows the container; the statement only speaks of "a container built from"
                 S.count("constructor_returned_other_object")
@@ -730,10 +754,10 @@ def run_interval(case):
     target = (target_name, (tp - base) // 12)
     want = R.RefSet([(start, 4), target])
     for via in ("from_interval_shorthand", "from_interval"):
-        nc = NoteContainer([["A", 2]])
+      for where, nc in reused_containers([n for n, _ in want.notes]):
         r = getattr(nc, via)(start, sh, up)
         S.trans(1)
-        site = "%s(%r, %r, %r)" % (via, start, sh, up)
+        site = "%s(%r, %r, %r)%s" % (via, start, sh, up, where)
         if isinstance(r, NoteContainer):
             nc = r
         got = stored(nc)
@@ -776,10 +800,10 @@ def run_numeral(case):
         return
     root = P.notes_of_key(key)[NUMERALS.index(base.upper())]
     for via in ("from_progression_shorthand", "from_progression"):
-        nc = NoteContainer([["A", 2]])
+      for where, nc in reused_containers(names):
         r = getattr(nc, via)(numeral, key)
         S.trans(1)
-        site = "%s(%r, %r)" % (via, numeral, key)
+        site = "%s(%r, %r)%s" % (via, numeral, key, where)
         if not isinstance(r, NoteContainer):
             S.problem(site + " result", "a NoteContainer", repr(r))
             continue
